@@ -89,8 +89,9 @@ Definition check_similar (d : distk) (tol : Qc) sp wk (k : nat) (bs : option nat
              (combine (combine (combine qs tqs) model) res).
 
 (* dump: the model's distances and indices *)
-Definition edump (e : ext) : option (Z * positive) := match e with Fin x => Some (qdump x) | Inf => None end.
+Definition edump (e : ext) : list (Z * positive) := match e with Fin x => [qdump x] | Inf => [] end.   (* [] = +inf *)
+Definition idump (i : idx) : list Z := [fst i; snd i].
 Definition dump_similar (d : distk) sp wk (k : nat) (bs : option nat)
            (cases targets : list (list Qc)) (qs tqs : list (list Qc)) :=
-  map (map (fun e : @example (list Qc) => (edump (ex_dist e), ex_idx e)))
+  map (map (fun e : @example (list Qc) => (edump (ex_dist e), idump (ex_idx e))))
       (similar_examples argsort_stable (dist_of d) (proj_fam sp wk) k bs cases targets (map (fun _ => @nil Qc) cases) qs tqs).
